@@ -642,7 +642,7 @@ pub fn connection_gen(preset: &str, seed: u64, steps: usize, lines: &mut Vec<Str
                     c.send_command(gen_cmd(&mut r, k));
                     c.process()
                 } else if what < 7 {
-                    let n = *r.pick(&[1usize, 2, 5, 16, 40]);
+                    let n = *r.pick(&[1usize, 2, 5, 16, 40, 400]); // 400 commands: more than the 8192-byte buffers hold
                     c.send_pipeline((0..n).map(|j| gen_cmd(&mut r, k * 100 + j)).collect());
                     c.process()
                 } else {
